@@ -74,6 +74,8 @@ def run(ctx, rep):
     for ob in fx.bodies.values():
         if ob.id == b.id or ob.kind not in ("Fn", "AssocFn") and not ob.kind.startswith("Closure"):
             continue
+        if not ob.writes_field(adt, "fragment_size"):
+            continue
         for bb, i, s in ob.mir.stmts():
             if s.kind == "assign" and s.lhs.proj and s.lhs.proj[-1][0] == "field":
                 lf = s.lhs.last_field()
